@@ -436,7 +436,7 @@ class TFLiteSemantic:
                 )
             if op.ifm is not None and op.ifm.is_quantized():
                 ifm_scale = op.ifm.quantization.scale_f32
-                if np.size(ifm_scale) > 1 and np.size(ofm_scale) > 1 and np.size(ifm_scale) != np.size(ofm_scale):
+                if np.size(ifm_scale) != np.size(ofm_scale) and 1 not in (np.size(ifm_scale), np.size(ofm_scale)):
                     return (
                         False,
                         f"IFM and OFM have {np.size(ifm_scale)} and {np.size(ofm_scale)} quantization scales",
